@@ -30,6 +30,12 @@ CHECKS = {
         note="Trusted: the 11-line reference model written from the statement; lxml plain parser. Characters outside the XML Char production are outside the domain.",
         design="§3 C04",
     ),
+    "C05": dict(
+        technique="runtime monitoring: sink registry of 68 string-accepting entry points driven with markup-biased strings on fresh decks; reader read-back, save/re-open, independent well-formedness parse of every saved member, and a differential element-skeleton comparison against the same call with a benign control string (injection detector)",
+        text="68 sinks (shape/slide/layout names, picture/placeholder/poster-frame/OLE-icon/movie file names as real files with hostile names, MIME type, OLE progId, run and shape hyperlink addresses, chart series names, category labels at every level, number formats at every level, chart/axis/data-label text, font names, text, all string core properties) x 50 (quick) / 2 500 (thorough) strings over the XML Char production biased to & < > quotes ]]> entity-like and format-string fragments: no exception, same string back (live, after re-open, and as stored), identical element skeleton.",
+        note="Trusted: lxml plain parser for the stored value and the skeleton; each case has its own pixel content and a fresh deck (image de-duplication keeps the first file name). C0 controls other than tab/LF/CR are outside this check (C04 owns text escaping).",
+        design="§3 C05",
+    ),
     "C06": dict(
         technique="runtime monitoring: postcondition wrappers on the real id/name allocators (M-ID) + id model read from the XML by XPath after every operation of addition-only histories over adversarial id states; saved slide part names checked by the independent reader",
         text="400 (quick) / 15 000 (thorough) addition-only histories (slides, every shape kind, nested groups, freeforms, pictures, charts, movies, OLE, notes, hyperlinks, turbo-add on/off) from 8 classes of injected id state (gaps, ids up to 2^31, duplicates, @id on p:cTn, non-numeric @id, slide ids at the bounds): allocator results fresh and in range, no new duplicate shape id, slide ids unique/in range/unchanged, rIds not reassigned while in use, part names unique, handles stable, slide parts named slide1..n in order after .slides access.",
